@@ -163,6 +163,8 @@ def gaussian_syn_likelihood_ghurye_olkin(ssx, ssy):
                       / (1 - 1/n)))
 
     try:
+        # the estimator is zero unless psi is positive definite (Ghurye & Olkin, 1969)
+        np.linalg.cholesky(psi)
         _, logdet_sigma = np.linalg.slogdet(Sigma)
         _, logdet_psi = np.linalg.slogdet(psi)
         A = wcon(d, n-2) - wcon(d, n-1) - 0.5*d*math.log(1 - 1/n)
